@@ -92,6 +92,8 @@ def run(ctx):
     def occ(n=None, hi=6):
         if n is None:
             n = int(rng.integers(0, 13)) if rng.random() < 0.95 else int(rng.integers(13, 40))
+            if rng.random() < 0.02:
+                n = int(rng.choice([63, 64, 65, 100, 129, 257]))     # wide registers
         return [int(x) for x in rng.integers(0, hi + 1, size=n)]
 
     def labels(n=None):
@@ -213,6 +215,10 @@ def run(ctx):
             elif op == "heralds":
                 a = occ(int(rng.integers(0, 9)), 3)
                 nh = int(rng.integers(0, 5))
+                if rng.random() < 0.04:
+                    a = occ(int(rng.choice([20, 40, 70])), 3)
+                    nh = int(rng.choice([9, 12, 17, 33]))
+                    ctx.bucket("many_heralds_on_wide_state")
                 total = len(a) + nh
                 pos = [int(x) for x in rng.choice(total, size=nh, replace=False)] if nh else []
                 if nh and rng.random() < 0.3:
@@ -251,7 +257,7 @@ def run(ctx):
                         ctx.count("law_checks")
             elif op == "unitary":
                 ctx.bucket("random_unitary")
-                n = int(rng.integers(1, 13)); seed = pick_seed(rng)
+                n = int(rng.integers(1, 13)) if rng.random() < 0.97 else int(rng.choice([16, 17, 32, 33, 64, 65])); seed = pick_seed(rng)
                 case.update(n=n, seed=seed)
                 u1, u2 = lw.random_unitary(n, seed), lw.random_unitary(n, seed)
                 law(u1.shape == (n, n) and np.max(np.abs(u1.conj().T @ u1 - np.eye(n))) < 1e-10, "random_unitary not unitary", case, "random_unitary")
@@ -265,7 +271,7 @@ def run(ctx):
                 RAND_POOL.append(("random_unitary", n, seed, saved))
             elif op == "perm":
                 ctx.bucket("random_permutation")
-                n = int(rng.integers(1, 13)); seed = pick_seed(rng)
+                n = int(rng.integers(1, 13)) if rng.random() < 0.97 else int(rng.choice([16, 17, 32, 33, 64, 65])); seed = pick_seed(rng)
                 case.update(n=n, seed=seed)
                 p1, p2 = lw.random_permutation(n, seed), lw.random_permutation(n, seed)
                 ok = p1.shape == (n, n) and np.all((p1 == 0) | (p1 == 1)) and np.all(p1.sum(0) == 1) and np.all(p1.sum(1) == 1)
